@@ -81,3 +81,36 @@ def gate_tables(ctx):
 def accept_set(table, dep, mode="may"):
     ok = ("must", "may") if mode == "may" else ("must",)
     return {s for (d, s), v in table["single"].items() if d == dep and v in ok}
+
+
+def finish_closure(ctx, max_chain=3):
+    """Closure of the finish check over small dependency chains: tasks T0 <- T1 <- ... (each depends on the next
+    by FF or SF), all WORKING with zero remaining work, presented in every order of task_list.  One call of
+    check_state(FINISHED) must leave all of them FINISHED (the first finisher enables the next one).
+    -> list of (order, kinds, final_states, ok)."""
+    import itertools as it
+    wf_check = ctx.repo.method(WORKFLOW, "check_state")
+    out = []
+    for n in range(2, max_chain + 1):
+        for kinds in it.product(("FF", "SF"), repeat=n - 1):
+            for order in it.permutations(range(n)):
+                tasks = [Obj(f"T{i}", TASK) for i in range(n)]
+                heap = {}
+                for i, t in enumerate(tasks):
+                    heap[(t.name, "state")] = E(TS, "WORKING")
+                    heap[(t.name, "remaining_work_amount")] = Poly.const(0)
+                    heap[(t.name, "need_facility")] = Const(False)
+                    heap[(t.name, "allocated_worker_list")] = ListV([])
+                    heap[(t.name, "allocated_facility_list")] = ListV([])
+                    # T_i depends on T_{i+1}
+                    heap[(t.name, "input_task_list")] = ListV([ListV([tasks[i + 1], E(DEP, kinds[i])], True, "list")] if i + 1 < n else [])
+                I = mk_interp(ctx, inline=lambda call, callee, depth: callee.cls == WORKFLOW,
+                              collections={"self.task_list": [tasks[i] for i in order]}, max_depth=3, unroll_while=n + 2)
+                outs = I.run_function(wf_check, bind={"state": E(TS, "FINISHED"), "time": Poly.sym("t"), "__defaults__": True}, heap=heap)
+                for st, ex in outs:
+                    finals = []
+                    for t in tasks:
+                        v = st.heap.get((t.name, "state"))
+                        finals.append(v.single() if isinstance(v, EnumSet) else None)
+                    out.append((order, kinds, finals, all(f == "FINISHED" for f in finals)))
+    return out
